@@ -544,7 +544,7 @@ def _size_test(l, mask):
     """min_n_points <= number of points of this mask (either way round)"""
     o = ordered(l)
     return o is not None and not o[2] and o[0] == ("attr", SELF, "min_n_points") and o[1] in (
-        ("call", G("numpy.sum"), (mask,), ()), ("call", ("attr", mask, "sum"), (), ()), ("call", G("numpy.count_nonzero"), (mask,), ()))
+        ("call", G("numpy.sum"), (mask,), ()), ("call", G("numpy.count_nonzero"), (mask,), ()))
 
 
 # ---------------------------------------------------------------------- min
